@@ -376,6 +376,39 @@ pub fn run_block(o: &Opts) {
                 }
             }
         }
+        // cross sets: one received set of K+o symbols (o = 0..3) decoded three ways - sparse back-end in one batch,
+        // dense back-end in one batch in another order, sparse back-end with the last symbols one at a time.  For block
+        // sizes above the rank oracle's reach the specification still demands one outcome per set and the original bytes.
+        for c in 0..o.usize("cross", 0) {
+            let mut rep = be.repair_packets(rng.random_range(0..2000), (k + 8) as u32);
+            rep.extend(be.repair_packets((1 << 24) - 1 - k as u32, 1));
+            rep.shuffle(&mut rng);
+            let mut sh = src.clone();
+            sh.shuffle(&mut rng);
+            let nsrc = match c % 3 { 0 => rng.random_range(0..k), 1 => k - 1 - rng.random_range(0..k.min(4)), _ => 0 };
+            let mut set: Vec<EncodingPacket> = sh[..nsrc].to_vec();
+            set.extend(rep.iter().take(k + (c % 4) - nsrc).cloned());
+            for way in 0..3 {
+                let mut dec = SourceBlockDecoder::new(0, &oti, f);
+                dec.set_sparse_threshold(if way == 1 { u32::MAX } else { 0 });
+                let id = next_dec;
+                next_dec += 1;
+                tr.emit(json!({"ev":"new","dec":id,"kind":"block","sbn":0,"sparse": way != 1}));
+                let mut seq = set.clone();
+                if way > 0 {
+                    seq.shuffle(&mut rng);
+                }
+                if way == 2 && seq.len() > 3 {
+                    let head = seq.len() - 3;
+                    deliver_block(&mut tr, id, &mut dec, &seq[..head]);
+                    for p in &seq[head..] {
+                        deliver_block(&mut tr, id, &mut dec, std::slice::from_ref(p));
+                    }
+                } else {
+                    deliver_block(&mut tr, id, &mut dec, &seq);
+                }
+            }
+        }
     }
     tr.emit(json!({"ev":"end"}));
     println!("events={}", tr.finish());
